@@ -722,6 +722,36 @@ Theorem duplicates_rejected db e :
   In EDuplicate (spec_errors G db e).
 Proof. exact (duplicates_rejected_T G db e). Qed.
 
+(* a specification with several formulas: the fault of ANY formula (first, middle, last) is reported,
+   because the generated rule of BIOGEME._audit accumulates the lists *)
+Lemma gen_acc_all : gen_biogeme_acc = AccAll.
+Proof. reflexivity. Qed.
+
+Theorem dict_fault_any_position db fs e x :
+  In e fs -> In x (formula_errors G db e) -> In x (biogeme_audit_errors gen_biogeme_acc G db fs).
+Proof.
+  intros He Hx. rewrite gen_acc_all. cbn [biogeme_audit_errors]. apply in_flat_map. exists e. auto.
+Qed.
+
+Theorem dict_faults_through_contexts db fs1 fs2 C :
+  ctx_wf C = true ->
+  (forall x, ~ In x (d_cols db) ->
+     In (EMissingColumn x) (biogeme_audit_errors gen_biogeme_acc G db (fs1 ++ plug C (EVar x) :: fs2))) /\
+  (forall n t, passes_under is_mc C = false ->
+     In (EDrawsOutside n) (biogeme_audit_errors gen_biogeme_acc G db (fs1 ++ plug C (EDraws n t) :: fs2))) /\
+  (forall n, passes_under is_integrate C = false ->
+     In (ERvOutside n) (biogeme_audit_errors gen_biogeme_acc G db (fs1 ++ plug C (ERV n) :: fs2))).
+Proof.
+  intros Hw. repeat split; intros.
+  - apply (dict_fault_any_position db _ (plug C (EVar x))); [apply in_or_app; right; left; reflexivity|].
+    unfold formula_errors. do 2 (apply in_or_app; right). apply missing_column_rejected; assumption.
+  - apply (dict_fault_any_position db _ (plug C (EDraws n t))); [apply in_or_app; right; left; reflexivity|].
+    unfold formula_errors. apply in_or_app. left. apply in_map. apply draws_outside_mc; assumption.
+  - apply (dict_fault_any_position db _ (plug C (ERV n))); [apply in_or_app; right; left; reflexivity|].
+    unfold formula_errors. apply in_or_app. right. apply in_or_app. left. apply in_map.
+    apply rv_outside_integral; assumption.
+Qed.
+
 (* KNOWN FINDING: the constructor does not apply the panel rule to formulas given in a dictionary *)
 Theorem var_outside_trajectory_dict_refuted :
   exists db e, d_panel db = true /\ In "x1"%string (check_panel G e) /\
